@@ -1076,8 +1076,9 @@ class Printer:
             else:
                 d = str(v)
                 body = d if len(d) < 4 else d[:-3] + "_" + d[-3:]
-            # bit literals (hex/bin) denote unsigned bit patterns: only for unsigned types
-            if form in ("hex", "bin") and not is_unsigned_fixed(ty) and ty != "usize":
+            # bit literals (hex/bin) with a suffix denote unsigned bit patterns: a signed type takes them only without suffix
+            # (typed by the context), where they denote the non-negative value they spell
+            if form in ("hex", "bin") and not is_unsigned_fixed(ty) and ty != "usize" and suffix:
                 body = str(v)
             return body + suffix
         if v < 0:
